@@ -360,6 +360,34 @@ def main(tier):
                                      "implementation": L.outcome_wire(got), "plain_python": L.outcome_wire(want)}, None)
     chk.evaluations += rx_cases
     chk.extra["regex_flag_cases"] = rx_cases
+    # ---- the input IS the constant (the very object) and is not equal to itself (NaN; an object whose __eq__ says no): the comparison
+    # atoms agree with Python's operators, which do not short-cut on identity; membership agrees with `in`, which does
+    class _Never:
+        def __eq__(self, other):
+            return False
+
+        __hash__ = object.__hash__
+
+        def __repr__(self):
+            return "<object unequal to itself>"
+
+    same_cases = 0
+    for c in (float("nan"), _Never()):
+        table = [("eq_p(c)", lambda: _P0.eq_p(c), lambda x: x == c), ("ne_p(c)", lambda: _P0.ne_p(c), lambda x: x != c), ("in_p(c)", lambda: _P0.in_p(c), lambda x: x in {c}),
+                 ("not_in_p(c)", lambda: _P0.not_in_p(c), lambda x: x not in {c}), ("in_p(c, 1)", lambda: _P0.in_p(c, 1), lambda x: x in {c, 1})]
+        if isinstance(c, float):
+            table += [("ge_p(c)", lambda: _P0.ge_p(c), lambda x: x >= c), ("le_p(c)", lambda: _P0.le_p(c), lambda x: x <= c), ("gt_p(c)", lambda: _P0.gt_p(c), lambda x: x > c),
+                      ("ge_le_p(c, c)", lambda: _P0.ge_le_p(c, c), lambda x: c <= x <= c)]
+        for d_, mk_, py_ in table:
+            for xd, x in (("the constant itself", c), ("1", 1)):
+                same_cases += 1
+                got, want = L.run(mk_(), x), ("ok", bool(py_(x)))
+                if got != want:
+                    chk.add_failure({"predicate": f"{d_} with c = {c!r}", "value": xd},
+                                    {"what": "a comparison atom differs from the plain Python operator when the input is the very object of the constant and that object is not equal to itself",
+                                     "implementation": L.outcome_wire(got), "plain_python": L.outcome_wire(want)}, None)
+    chk.evaluations += same_cases
+    chk.extra["input_is_the_constant_cases"] = same_cases
     # ---- the type tests agree with isinstance on EVERY input and at EVERY moment: values whose __class__ is not their type
     # (mock objects with a spec, weak proxies), and a class registered as a virtual subclass between two evaluations
     import collections.abc as _abc
